@@ -11,15 +11,31 @@ let list_reply (l : n list list) : string =
 
 let handle (toks : string list) : string =
   match toks with
-  | "scan_multi" :: d :: ng :: rest ->
-      (* scan_multi <desc> <nglobs> {glob} {id}   (ids in ascending order) *)
-      let (gs, ids) = take (int_of_string ng) rest in
-      list_reply (scan_multi (Stdlib.List.map bytes_of_hex gs) (d = "1") (Stdlib.List.map bytes_of_hex ids))
-  | "search_multi" :: d :: ng :: rest ->
-      (* search_multi <desc> <nglobs> {glob} {value id}   (entries in (value, id) order) *)
-      let (gs, vs) = take (int_of_string ng) rest in
-      list_reply (search_multi (Stdlib.List.map bytes_of_hex gs) (d = "1")
-                    (pairs (fun v i -> (bytes_of_hex v, bytes_of_hex i)) vs))
+  | "scan_multi" :: d :: lim :: ng :: rest ->
+      (* scan_multi <desc> <limit> <nglobs> {glob} {id fok}   (ids in ascending order; fok = the
+         verdict of the field filter on that object)  ->  <count of the COUNT form> <n> {id of the IDS form} *)
+      let (gs, es) = take (int_of_string ng) rest in
+      let es = pairs (fun i f -> (bytes_of_hex i, f = "1")) es in
+      let fok id = (try Stdlib.List.assoc id es with Not_found -> false) in
+      let globs = Stdlib.List.map bytes_of_hex gs in
+      let limit = Z.to_N (z_of_string lim) in
+      let ids = Stdlib.List.map fst es in
+      let items = out_items (scan_multi globs fok limit false (d = "1") ids) in
+      let cnt = out_count (scan_multi globs fok limit true (d = "1") ids) in
+      string_of_z (Z.of_N cnt) ^ " " ^ list_reply items
+  | "search_multi" :: d :: lim :: ng :: rest ->
+      (* search_multi <desc> <limit> <nglobs> {glob} {value id fok}   (entries in (value, id) order) *)
+      let (gs, es) = take (int_of_string ng) rest in
+      let rec triples l = match l with v :: i :: f :: r -> ((bytes_of_hex v, bytes_of_hex i), f = "1") :: triples r
+                                     | [] -> [] | _ -> failwith "triples" in
+      let es = triples es in
+      let fok e = (try Stdlib.List.assoc e es with Not_found -> false) in
+      let globs = Stdlib.List.map bytes_of_hex gs in
+      let limit = Z.to_N (z_of_string lim) in
+      let vs = Stdlib.List.map fst es in
+      let items = out_items (search_multi globs fok limit false (d = "1") vs) in
+      let cnt = out_count (search_multi globs fok limit true (d = "1") vs) in
+      string_of_z (Z.of_N cnt) ^ " " ^ list_reply (Stdlib.List.map snd items)
   | "multi_glob_parse" :: d :: ps ->
       let (a, b) = multi_glob_parse (Stdlib.List.map bytes_of_hex ps) (d = "1") in
       Printf.sprintf "%s %s" (hex_of_bytes a) (hex_of_bytes b)
